@@ -6,7 +6,7 @@ DRIVER = "drv_tensor"
 DRIVER_MODULE = "Driver.Tensor"
 PROPS = "RlibModel.Props.C19"
 PROPS_SRC = "RlibModel.Props.C19Src"     # second tie: `src_*` theorems about the definitions regenerated from the source text
-PROFILES = ["release"]
+PROFILES = ["release", "debug"]   # debug: debug assertions on, unoptimised (code that misbehaves only under cfg!(debug_assertions)); a reduced generator (--profile debug)
 SHRINK_SEP = ";"
 RULE = ("cases: every shape of rank 0..4 with extents 1..5 (rank 4: extents <= 4 in the quick tier): every valid index and every index out of range in exactly one dimension with the other coordinates "
         "ranging over all valid values: get_index, and - independently of each other, on tensors built by from_vec / from_slice / new / read - t[idx] and "
@@ -20,7 +20,15 @@ RULE = ("cases: every shape of rank 0..4 with extents 1..5 (rank 4: extents <= 4
         "(same shape / another shape with the same element count / another count; rank 1 extents <= 6, rank 2 <= 4, rank 3 <= 3, rank 4 <= 2 in the quick tier), each followed by dims(), ==, iter, "
         "t[idx] / get_index / t[idx]=v at the last and a random valid index and at an index out of range in each dimension - for the source's shape and for the overwritten "
         "variable's old shape -, dim(i) for i in and out of range, Writable bytes, a write to the copy, the source afterwards, and clone_from back; plus 2500 (thorough 60000) random histories mixing all ops "
-        "over shapes that are permutations of each other; a failing history is shrunk op by op. non-trivial = distinct in-domain case whose shape has more than one element")
+        "over shapes that are permutations of each other; a failing history is shrunk op by op. "
+        "Element-generic histories `g D ty ; op ; …` over four Tensor<T, D> variables for T = i64, String, f64 (NaN, +0.0/-0.0, inf), (), a zero-sized struct, a zero-sized struct whose == is never true, "
+        "and a record compared by key only (equal-comparing values distinguishable): per type and per pair of shapes (all pairs with the same element count, one with another count, the same shape; "
+        "from_vec / from_slice / new / Tensor::read rotating, equal data two times in three) ==, != in both orders, with the SAME object on both sides, against a clone and against a copy rebuilt from "
+        "dims() and into_iter().collect(), Tensor::new from a returned shape, {:?}, clone_from into the other shape followed by ==, !=, dims, indexing in and out of range, writes, Writable; "
+        "iterators of iter / iter_mut / into_iter (the three must agree) after k x next and j x next_back (k + j below, at and beyond the length): count, len (+ size_hint), last, nth, nth_back, "
+        "rev (= rfold), collect (= fold = for_each); 450 (thorough 8000) random histories per type mixing all ops; shapes beyond the small scope (4096, 99991, 64x64, 300x7, 16^3, 2x3x4x5, 17x1x19x3, 32x8x4x4 and rotations): "
+        "offsets, ==/!= between rotated shapes, iterators consumed deep from both ends. Both build profiles: release (debug assertions off) and debug (on; reduced generator). "
+        "non-trivial = distinct in-domain case whose shape has more than one element (histories: one that clones, compares, iterates or indexes)")
 ASSUMPTIONS = [
     "the Lean model of rlib_tensor is hand-written; it is tied to the code by running both on the same cases",
     "Tensor<T, D> needs the rank at compile time: the correspondence covers ranks 0..4 (the theorems cover every rank)",
@@ -29,6 +37,13 @@ ASSUMPTIONS = [
     "element rendering/parsing (i64, String) is rlib_io's (C08/C09); the model takes the rendering of an element as a parameter",
     "Clone is modelled with value semantics (clone = same shape and elements; clone_from = the trait default `*self = source.clone()`); histories are run on Tensor<i64, D> "
     "with four variables; the spec side of a history (stepSpec) is proved equal to the model side for every history (hist_spec)",
+    "element-generic histories (g cases): the model is polymorphic in the element type and in the element's == (no lawfulness assumed); the driver instantiates it at a sum type whose == is "
+    "Rust's PartialEq of the harness' element types (i64, String: equality; f64: IEEE on Lean's Float - NaN != NaN, +0.0 == -0.0 - values taken from a fixed table of 11 literals and only moved, never computed; "
+    "() and the zero-sized struct: always equal; the `nz` struct: never equal; records: by key); gStepSpec is proved equal to gStepModel for every element type, every == and every history (ghist_spec); "
+    "the zero-sized structs, the record type and their Writable/Readable/Debug impls are harness code; f64, () and nz have no Writable/Readable (no `w` / `rdv` ops)",
+    "the std iterators (slice::Iter, slice::IterMut, vec::IntoIter) are modelled as the not-yet-yielded window of the storage with next / next_back, the provided methods by their std definitions in terms of "
+    "these two (proved equal to the closed forms over storage positions k <= p < len - j: iter_partial); the harness requires DoubleEndedIterator + ExactSizeIterator of whatever iter/iter_mut/into_iter return; "
+    "next_back steps are capped at 300 per iterator (the list model's next_back is linear)",
 ]
 MANIFEST = {
     "level": "proof",
@@ -40,7 +55,10 @@ MANIFEST = {
              "elements agree; with every usize operation checked, get_index never overflows when the product fits usize and the constructors reject every "
              "shape whose product does not; the Debug output is the same walk with bracket separators; clone / clone_from have value semantics (after a.clone_from(&b), whatever a was, "
              "a has b's shape and elements: indexing, ==, iteration and output are b's), dim(i) is the i-th extent, and every history of constructor / clone / clone_from / == / "
-             "indexing / write / iter / output steps over several tensors shows exactly what the row-major specification says. The hand-written model is tied to rlib_tensor by a differential correspondence run on every check."),
+             "indexing / write / iter / output steps over several tensors shows exactly what the row-major specification says; for EVERY element type and every element == (not assumed reflexive: NaN; nor to "
+             "distinguish values: zero-sized elements, records compared by key) t == u holds iff shapes and element counts agree and every pair of corresponding elements compares equal - nothing else, in particular "
+             "not the identity or address of the operands -, != is its negation, an iterator after k next and j next_back calls holds storage positions k..len-j and count/len/last/nth/nth_back/rev/collect answer "
+             "accordingly, and every element-generic history (all four constructors, rebuilding from returned shapes/elements, clone, clone_from, ==, !=, indexing, iterators, Writable, Debug) shows what the specification says. The hand-written model is tied to rlib_tensor by a differential correspondence run on every check."),
     "note": ("Trusted: Lean kernel, axioms propext/Classical.choice/Quot.sound, the hand-written model (checked against the code on the generated cases "
              "only, ranks 0..4, extents <= 5), harness and driver plumbing. Unchecked (wrapping) usize arithmetic is outside the model."),
     "technique": "Lean 4 proof of a hand-written model + differential correspondence check against the Rust crate",
@@ -53,6 +71,8 @@ def nontrivial(case, rec):
     op = toks[0]
     if op == "h":
         return " cf " in case or " cl " in case
+    if op == "g":
+        return any(k in case for k in (" eq ", " ne ", " cf ", " itx ", " get "))
     try:
         d = {"ctor": 2, "write": 2, "rt": 3}.get(op, 1)
         dims = [] if toks[d] == "-" else [int(x) for x in toks[d].split(",")]
@@ -76,6 +96,11 @@ ASSUMPTIONS.append(
     "D + 1 <= fuel, and for index/index_mut positive extents whose product fits usize (the model's index uses unchecked arithmetic); trusted there: the translator, its reading "
     "of arrays/Vec (Generated/VecPrelude.lean, ArrPrelude.lean) and of a `&mut` place as its current value; NOT covered by the second tie (differential tie only): read, iterators, write, Debug, Clone")
 MANIFEST["technique"] += " + source-to-Lean translation of rlib/tensor/src/lib.rs (constructors, get_index, dim, Index/IndexMut, ==) regenerated and proved equal to the model on every run"
+
+
+def harness_args(params, profile):
+    """`--profile debug`: the generator emits the histories in full and a sample of the bulk index streams."""
+    return ["--profile", profile]
 
 
 def extract(repo):
